@@ -349,8 +349,10 @@ bool Terminal::Impl::executeRunHistoryCmd(SessionContext *s, const Args &args)
                 is_index_valid = true;
             }
         } else {
-            if (s->history.size() >= static_cast<size_t>(-index)) {
-                s->curr_input = s->history.at(s->history.size() + index);
+            //! negate in a wider type: -INT_MIN does not fit an int
+            auto back_count = static_cast<size_t>(-static_cast<long long>(index));
+            if (s->history.size() >= back_count) {
+                s->curr_input = s->history.at(s->history.size() - back_count);
                 is_index_valid = true;
             }
         }
